@@ -206,7 +206,23 @@ def run_e2e(sh, ctx):
 		db = ReferenceDatabase.load_from_dir(d)
 		try:
 			qsigs = load_signatures(str(qs))
-			results = query(db, qsigs, inputs=[q['label'] for q in w.queries])
+			# history in this process: earlier calls asked for OTHER settings - as keyword arguments, and through a params object the
+			# caller keeps and re-uses; the call judged below asks for nothing, i.e. the documented default (non-strict) mode
+			from gambit.query import QueryParams
+			mine = QueryParams(report_closest=2)
+			style = ['keywords', 'params-object', 'both-then-default', 'none'][wi % 4]
+			try:
+				if style in ('keywords', 'both-then-default'):
+					query(db, qsigs, classify_strict=True, report_closest=1, chunksize=3)
+				if style in ('params-object', 'both-then-default'):
+					query(db, qsigs, QueryParams(classify_strict=True))
+					query(db, qsigs, mine)
+			except Exception as e:
+				ctx.count(f'preceding_calls_raised:{type(e).__name__}')
+			ctx.count(f'preceding_calls:{style}')
+			if (mine.classify_strict, mine.report_closest) != (False, 2):
+				ctx.count('callers_params_object_changed')
+			results = query(db, qsigs, inputs=[q['label'] for q in w.queries]) if wi % 2 else query(db, qsigs, mine, inputs=[q['label'] for q in w.queries])
 			key2t = {info['key']: t for t, info in zip(w.taxa, w.tinfo)}
 			for qi, item in enumerate(results.items):
 				exp = w.expected_nonstrict(qi)
@@ -273,7 +289,7 @@ def run_shard(sh, ctx):
 
 def finalize(merged, tier, seed, inconclusive):
 	c = merged['counters']
-	for n in ['lineages', 'lineages_with_thresholdless_leaf', 'distance_exactly_on_threshold', 'tied_minimum', 'e2e_api_queries', 'e2e_cli_commands', 'e2e_distance_exactly_on_a_threshold', 'distance_is_the_single_precision_value_of_a_threshold', 'lineages_deeper_than_recursion_limit']:
+	for n in ['lineages', 'lineages_with_thresholdless_leaf', 'distance_exactly_on_threshold', 'tied_minimum', 'e2e_api_queries', 'e2e_cli_commands', 'e2e_distance_exactly_on_a_threshold', 'distance_is_the_single_precision_value_of_a_threshold', 'lineages_deeper_than_recursion_limit', 'preceding_calls:keywords']:
 		if c.get(n, 0) == 0:
 			inconclusive.append(f'class never observed: {n}')
 	return dict(exhaustive=True, max_depth=max(merged['sets'].get('depths', {0})),
